@@ -294,10 +294,11 @@ Proof.
   destruct u; destruct x; try discriminate; reflexivity.
 Qed.
 
-(* ---------------------------------------------------------------- the open finding *)
-(* (n1 < 2) == IN(n0 + 1, <subquery 0>): INSubquery.__sqlrepr__ leaves
-   "((c03t.n0) + (1)) IN (SELECT ...)" unparenthesised, SQLOp sees a leading "("
-   and adds none either, and the comparison captures the left part. *)
+(* ---------------------------------------------------------------- the fixed finding (cc273ef) *)
+(* (n1 < 2) == IN(n0 + 1, <subquery 0>): before the fix INSubquery.__sqlrepr__ left
+   "((c03t.n0) + (1)) IN (SELECT ...)" unparenthesised, SQLOp saw a leading "(" and
+   added none either, and the comparison captured the left part.  Kept as a
+   regression example (Props/C03.v). *)
 Definition witness_captured : node :=
   py_binop PEq (py_binop PLt (NField (Col TyNum 1)) (NAtom (AInt 2)))
                (b_IN (py_binop PAdd (NField (Col TyNum 0)) (NAtom (AInt 1))) (NSelect 0)).
@@ -305,19 +306,13 @@ Definition witness_env : env :=
   {| e_col := fun c => match c with Col TyNum 0%N => VInt 1 | Col TyNum 1%N => VInt 0 | _ => VNull end;
      e_sub := fun _ => [VInt 2] |}.
 
-Definition render_parse_full : Prop :=
-  forall d n, wt n = true -> parse_rendered std_table (render d n) = Parsed (denote n).
+Theorem filter_same_std {R : Type} d n (envof : R -> env) (rows : list R) :
+  wt n = true ->
+  exists s, parse_rendered std_table (render d n) = Parsed s /\
+            keep envof (fun E => eval3 E s) rows = keep envof (fun E => evaln E n) rows.
+Proof. intros W. apply filter_same; [exact W|now apply table_safe]. Qed.
 
-Lemma render_parse_full_refuted : ~ render_parse_full.
-Proof.
-  intros H. specialize (H Sqlite witness_captured eq_refl). vm_compute in H. discriminate.
-Qed.
-
-Lemma captured_selects_other_rows :
-  exists d n E s,
-    wt_filter n = true /\ parse_rendered std_table (render d n) = Parsed s /\
-    selected (evaln E n) = true /\ selected (eval3 E s) = false.
-Proof.
-  exists Sqlite, witness_captured, witness_env. eexists.
-  split; [reflexivity|]. split; [vm_compute; reflexivity|]. split; vm_compute; reflexivity.
-Qed.
+Theorem none_never_eq_null_std d n :
+  wt n = true -> no_eq_none n = true ->
+  exists s, parse_rendered std_table (render d n) = Parsed s /\ no_eq_null s = true.
+Proof. intros W N. apply none_never_eq_null; [exact W|now apply table_safe|exact N]. Qed.
